@@ -216,6 +216,18 @@ func Load(configFile string) Configuration {
 		log.Fatalf("host selection is set to `signed` but `querytokensigningkey` is not set")
 	}
 
+	// HS256 needs a key of at least 32 characters: with a shorter one every token
+	// is refused (or cannot be signed) at run time. These two keys cannot be
+	// replaced by a random one (the query token key is shared with whoever signs
+	// the tokens, an absent user token key means encryption only), so refuse.
+	if Conf.Server.HostSelection == "signed" && len(Conf.Security.QueryTokenSigningKey) < 32 {
+		log.Fatalf("`querytokensigningkey` must be at least 32 characters")
+	}
+
+	if len(Conf.Security.UserTokenSigningKey) > 0 && len(Conf.Security.UserTokenSigningKey) < 32 {
+		log.Fatalf("`usertokensigningkey` must be at least 32 characters (or empty for encrypted-only user tokens)")
+	}
+
 	if Conf.Server.BasicAuthEnabled() && Conf.Server.Tls == "disable" {
 		log.Fatalf("basicauth=local and tls=disable are mutually exclusive")
 	}
